@@ -49,10 +49,34 @@ def lake_build(targets):
     return r.returncode == 0, r.stdout
 
 
-def audit(prop):
-    """obligations of a property = theorems named <prop>_* in Proofs/<prop>.lean; discharged =
-    those whose axioms are within the allowed set. Returns (list of (name, axioms, ok, partial))"""
-    src_path = os.path.join(LEAN, 'FancyModel', 'Proofs', prop + '.lean')
+def proof_modules(prop):
+    """the proof files of a property: Proofs/<prop>.lean and Proofs/<prop><lowercase suffix>.lean (e.g. C13b.lean)"""
+    d = os.path.join(LEAN, 'FancyModel', 'Proofs')
+    return sorted(f[:-5] for f in os.listdir(d) if re.fullmatch(re.escape(prop) + r'([a-z][A-Za-z0-9]*)?\.lean', f))
+
+
+def forbidden_everywhere():
+    """forbidden constructs (outside comments) in any source file of the Lean library"""
+    bad = []
+    for root, _, files in os.walk(os.path.join(LEAN, 'FancyModel')):
+        for f in files:
+            if not f.endswith('.lean') or f.startswith('_audit_'):
+                continue
+            src = open(os.path.join(root, f)).read()
+            code = re.sub(r'/-.*?-/', '', src, flags=re.S)
+            code = re.sub(r'--.*', '', code)
+            for w in ['sorry', 'admit', 'native_decide', 'bv_decide', 'implemented_by', 'unsafe ', 'maxHeartbeats 0']:
+                if re.search(r'(?<![A-Za-z0-9_.])' + re.escape(w.strip()) + r'(?![A-Za-z0-9_])', code):
+                    bad.append('%s in %s' % (w.strip(), f))
+            bad += ['%s in %s' % (a, f) for a in re.findall(r'^axiom\s+\S+', code, re.M)]
+    return bad
+
+
+def audit(prop, module=None):
+    """obligations of a property = theorems named <prop>_* in the proof module (default Proofs/<prop>.lean);
+    discharged = those whose axioms are within the allowed set. Returns (list of (name, axioms, ok)), forbidden, raw"""
+    module = module or prop
+    src_path = os.path.join(LEAN, 'FancyModel', 'Proofs', module + '.lean')
     src = open(src_path).read()
     names = re.findall(r'^theorem\s+(' + prop + r'_[A-Za-z0-9_\']+)', src, re.M)
     # forbidden constructs outside comments
@@ -76,9 +100,9 @@ def audit(prop):
         m = re.match(r'^theorem\s+(' + prop + r'_[A-Za-z0-9_\']+)', line)
         if m:
             full_names[m.group(1)] = '.'.join(stack + [m.group(1)])
-    audit_file = os.path.join(LEAN, 'FancyModel', 'Proofs', '_audit_' + prop + '.lean')
+    audit_file = os.path.join(LEAN, 'FancyModel', 'Proofs', '_audit_' + module + '.lean')
     with open(audit_file, 'w') as f:
-        f.write('import FancyModel.Proofs.%s\n' % prop)
+        f.write('import FancyModel.Proofs.%s\n' % module)
         for n in names:
             f.write('#print axioms %s\n' % full_names.get(n, n))
     r = sh(['lake', 'env', 'lean', audit_file], cwd=LEAN, check=False)
